@@ -237,7 +237,8 @@ pub mod merge_channel {
 /// C19: a real `ClusterWorker::work()` fed by a real merge channel (no network).
 pub mod cluster_worker {
     pub use crate::cluster::worker_verif::{
-        ProducerRig, TakenUpdate, WorkerRig, use_keyspace_result_labels,
+        NodeView, PeerSpec, ProducerRig, PublishedViews, TakenUpdate, WorkerRig,
+        use_keyspace_result_labels,
     };
 }
 
